@@ -9,7 +9,7 @@ fn main() {
     let col: Vec<String> = vec![String::from("a"), String::from("b"), String::from("c")];
     let it = col.into_iter().into_con_iter();
     let mut b = it.buffered_iter(2);
-    let k2 = b.next();
-    let c = it.next_chunk(2);
-    if let Some(x) = k2 { let _n = x.values.count(); }
+    let r = it.next();
+    drop(it);
+    if let Some(x) = r { let _y = x.clone(); }
 }
